@@ -304,7 +304,119 @@ def ev_block(case):
     return {"fails": fails[:40], "n": nev, "tags": tags, "slack": slack, "sample": smp}
 
 
-EVALUATORS = {"block": ev_block}
+# ---- the density and the cumulative function are FUNCTIONS of x: an array argument = the same points one at a time -------
+ARRAY_SIZES = [1, 2, 3, 31, 32, 33, 34, 100, 1000]
+ARRAY_SIZES_THOROUGH = [1, 2, 3, 4, 5, 8, 15, 16, 17, 31, 32, 33, 34, 63, 64, 65, 100, 127, 128, 129, 255, 256, 257, 500, 1000, 1023, 1024, 1025, 4097]
+ARRAY_LAYOUTS = ["span", "quantiles", "cluster"]
+ARRAY_ORDERS = ["sorted", "reversed", "scrambled"]
+TOL_PDF_POINT = TOL_MODE  # | pdf(array)[i] - pdf(x_i) | / peak  (the convention already used for density values: 1e-3 of the peak)
+TOL_CDF_POINT = TOL_CDF_PAIR  # | cdf(array)[i] - cdf(x_i) |, plus (UnimodalPdf) the mass of the density below its lower integration limit:
+# its cumulative function is counted from lwr_limit (the reason for TOL_CDF_ABS above) unless the array holds a point below that limit,
+# in which case it is counted from that point - the two calls may then differ by up to the mass below the limit, which the convention tolerates
+CDF_STARTS_AT_LOWER_LIMIT = ("UnimodalPdf",)
+
+
+def array_points(layout, size, srt, sd):
+    """`size` distinct ascending abscissae; layouts: equally spaced over the data range +- 3 sd / the sample's own quantiles (dense
+    centre, sparse tails) with the two outermost moved 3 sd beyond the data / all but four within 0.05 sd of the median."""
+    c = float(srt[srt.size // 2])
+    lo, hi = float(srt[0]) - 3.0 * sd, float(srt[-1]) + 3.0 * sd
+    if size == 1:
+        return np.array([{"span": c + 0.3 * sd, "quantiles": float(srt[srt.size // 4]), "cluster": hi - 0.5 * sd}[layout]])
+    if layout == "span":
+        x = lo + (hi - lo) * (np.arange(size) / (size - 1.0))
+    elif layout == "quantiles":
+        q = (np.arange(size) + 0.5) / size
+        pos = q * (srt.size - 1)
+        i0 = np.floor(pos).astype(int)
+        i1 = np.minimum(i0 + 1, srt.size - 1)
+        x = srt[i0] + (pos - i0) * (srt[i1] - srt[i0])
+        if size >= 3:
+            x[0], x[-1] = lo, hi
+    elif layout == "cluster":
+        far = [lo, float(srt[0]), float(srt[-1]), hi][: min(4, size - 1)] if size > 2 else [lo]
+        m = size - len(far)
+        near = c + 0.05 * sd * ((np.arange(m) + 0.5) / m * 2.0 - 1.0)
+        x = np.sort(np.concatenate([far, near]))
+    else:
+        raise HarnessError(layout)
+    x = np.unique(x)
+    if x.size != size:  # ties in the data: fall back to an equally spaced axis between the same ends
+        x = x[0] + (x[-1] - x[0]) * (np.arange(size) / (size - 1.0))
+    return x
+
+
+def ev_arrays(case):
+    """one fitted estimator: cdf(array) and pdf(array) against the same points passed one at a time as python floats"""
+    cls_name, fam, n, a, loc = case["cls"], case["family"], case["n"], case["scale"], case["loc"]
+    base = base_sample(fam, n, case.get("stride"))
+    data = a * base + loc * float(np.std(base)) * a
+    fails, tags, slack = [], set(), {}
+    nev = 0
+
+    def sl(name, v):
+        if v == v and v > slack.get(name, -1.0):
+            slack[name] = float(v)
+
+    with lib(f"construct-{cls_name}"):
+        est = estimator(cls_name)(data.copy())
+    nev += 1
+    srt = np.sort(data)
+    sd = float(np.std(data))
+    where0 = f"{cls_name} {fam} n={n} scale={a:g} location={loc:g}sd"
+    detail = dict(cls=cls_name, family=fam, n=n, scale=a, loc=loc)
+    t_low = 0.0
+    if cls_name in CDF_STARTS_AT_LOWER_LIMIT:
+        # mass of the estimated density below the declared lower limit (harness quadrature, coordinates centred on the limit)
+        lwr = float(est.lwr_limit)
+        u = -REACH_SD * sd * (1.0 - np.arange(4001) / 4000.0)
+        with lib(f"pdf-{cls_name}"):
+            pl = np.asarray(est(lwr + u), dtype=float)
+        nev += 1
+        t_low = max(0.0, float(R.simpson(pl, u[1] - u[0])))
+        sl(f"mass-below-lower-limit-over-cdf-point-tol/{cls_name}", t_low / TOL_CDF_POINT)
+    for layout in case["layouts"]:
+        for size in case["sizes"]:
+            x = array_points(layout, size, srt, sd)
+            with lib(f"pdf-scalar-{cls_name}"):
+                ps = np.array([float(est(float(v))) for v in x])
+            with lib(f"cdf-scalar-{cls_name}"):
+                Fs = np.array([float(est.cdf(float(v))) for v in x])
+            nev += 2 * size
+            peak = max(float(ps.max()), float(est(float(est.mode))))
+            perm = R.stride_permutation(size, max(1, int(size * 0.381966)) | 1)
+            if size > 2 and (np.array_equal(perm, np.arange(size)) or np.array_equal(perm, np.arange(size)[::-1])):
+                perm = np.roll(np.arange(size), 1)
+            for order in case["orders"]:
+                idx = {"sorted": np.arange(size), "reversed": np.arange(size)[::-1], "scrambled": perm}[order]
+                xa = x[idx].copy()
+                where = f"{where0}: {size} points, layout {layout}, {order}"
+                with lib(f"pdf-array-{cls_name}"):
+                    pa = np.asarray(est(xa.copy()), dtype=float)
+                with lib(f"cdf-array-{cls_name}"):
+                    Fa = np.asarray(est.cdf(xa.copy()), dtype=float)
+                nev += 2
+                for name, got, want, tol, scale_ in (("pdf", pa, ps[idx], TOL_PDF_POINT, peak), ("cdf", Fa, Fs[idx], TOL_CDF_POINT + t_low, 1.0)):
+                    # a one-point array may come back as a scalar or as a one-element array (the statement leaves that open)
+                    if got.shape != (size,) and not (size == 1 and got.shape == ()):
+                        fails.append(fail(f"arrays/{cls_name}/{name}-shape", f"{where}: result of shape {got.shape}", size=size, layout=layout, order=order, **detail))
+                        continue
+                    got = got.reshape(size)
+                    if not np.isfinite(got).all():
+                        fails.append(fail(f"arrays/{cls_name}/{name}-not-finite", f"{where}: {got[~np.isfinite(got)][:3].tolist()}", size=size, layout=layout, order=order, **detail))
+                        continue
+                    d = np.abs(got - want) / scale_
+                    e = float(d.max())
+                    sl(f"array-vs-pointwise-{name}/{cls_name}", e / tol)
+                    if e > tol:
+                        i = int(np.argmax(d))
+                        fails.append(fail(f"arrays/{cls_name}/{name}-differs-from-pointwise", f"{where}: at x={xa[i]!r} the array call gives {got[i]!r}, the scalar call {want[i]!r} "
+                                          f"(difference {e:.3g} > {tol:g}{' of the peak' if name == 'pdf' else ''})", size=size, layout=layout, order=order, **detail))
+                tags.add(f"arrays|{cls_name}|{layout}|size={size}|{order}")
+    return {"fails": fails[:40], "n": nev, "tags": tags, "slack": slack}
+
+
+EVALUATORS = {"block": ev_block, "arrays": ev_arrays}
 
 
 def run(ck):
@@ -333,12 +445,29 @@ def run(ck):
     # the remaining blocks heaviest first so that the pool stays busy
     ck.run_cases("block", [c for c in cases if c["n"] == 300], chunk=1)
     ck.run_cases("block", sorted([c for c in cases if c["n"] != 300], key=lambda c: -c["n"]), chunk=1)
+    # array arguments against the same points one at a time
+    acases = []
+    tf = [(1e-6, 1e4), (1e6, -3e3), (1.0, 1e6)]
+    for ci, cls_name in enumerate(("GaussianKDE", "UnimodalPdf")):
+        for fi, fam in enumerate(fams[cls_name]):
+            for n in (300,) if quick else (300, 3000):
+                pairs = [(1.0, 0.0)] + ([tf[(seed + ci + fi) % len(tf)]] if quick else tf)
+                for a, loc in pairs:
+                    for layout in ARRAY_LAYOUTS:
+                        acases.append({"cls": cls_name, "family": fam, "n": n, "scale": a, "loc": loc, "stride": stride, "layouts": [layout],
+                                       "sizes": ARRAY_SIZES if quick else ARRAY_SIZES_THOROUGH, "orders": ARRAY_ORDERS})
+    ck.run_cases("arrays", acases, chunk=1)
     ck.rule = (
         "quantile samples %s (bimodal for the KDE only) x n in %s + 20000%s x scale %s x location %s sd x fractions %s; each problem: own-density "
         "oracles on a 40001-node centred grid, and covariance against the base problem (scale 1, location 0). "
-        "Distinct = (estimator, family, n, scale, location)."
-        % (fams["GaussianKDE"], list(sizes), " (one scale per estimator and family, rotating with the seed)" if quick else "", scales, locs, fractions)
+        "Distinct = (estimator, family, n, scale, location). Array arguments: for every estimator and family (n=300%s; base problem and %s) cdf and pdf of arrays of "
+        "%s points in 3 layouts (equally spaced over the data +- 3 sd; the sample's own quantiles with far outer points; all but four points within 0.05 sd of the median) "
+        "x 3 orders (ascending, descending, a fixed non-monotone permutation) against the same points passed singly as floats; distinct = (estimator, layout, size, order)."
+        % (fams["GaussianKDE"], list(sizes), " (one scale per estimator and family, rotating with the seed)" if quick else "", scales, locs, fractions,
+           "" if quick else " and 3000", "one transformed problem rotating with the seed" if quick else "3 transformed problems", ARRAY_SIZES if quick else ARRAY_SIZES_THOROUGH)
     )
     ck.assume("'any reasonable sample' = the listed deterministic quantile samples (deterministically permuted), n <= 20000")
     ck.assume("conventions for the approximate clauses as in DESIGN.md C19 (normalisation 1e-3, cdf pairs 1e-3 / absolute 3e-3, interval mass 2e-3, end densities 1% of the peak, mode 1e-3, moments 1e-3 sd / 0.5% / 0.02 / 0.05 plus 3x the moment carried outside the declared range)")
+    ck.assume("array arguments: 'equal to point-wise evaluation' is taken with the conventions above (cdf 1e-3 absolute, pdf 1e-3 of the peak), not to rounding; "
+              "a one-point array may return a scalar or a one-element array")
     ck.extra["tolerances"] = dict(norm=TOL_NORM, cdf_pair=TOL_CDF_PAIR, cdf_abs=TOL_CDF_ABS, interval_mass=TOL_INT_MASS, interval_ends=TOL_INT_ENDS, mode=TOL_MODE, mean_sd=TOL_MEAN_SD, var_rel=TOL_VAR_REL, skew=TOL_SKEW, kurt=TOL_KURT, tail_factor=TAIL_FACTOR)
